@@ -86,6 +86,12 @@ def part_c03(tier, seed):
             trans = bool((np.asarray(sim.s)[4] < WD.K().TMAX).any())
             b.case((G.describe(c)['nodes'], G.describe(c)['lines'], str(opts), str(caps)), trans,
                    sample={'circuit': str(sig), 'options': opts, 'caps': caps if isinstance(caps, int) else 'per-line', 'lanes': n, 'overflow': ovl})
+            from . import map_drv
+            pre = [(cl_, m_) for cl_, m_ in map_drv.check_map(sim, c, opts['strip_forks'], opts['c_reuse'], caps if not isinstance(caps, int) else [caps] * (len(c.lines) + 3), 4, scratch=False)
+                   if cl_.startswith('M3') or cl_.startswith('M4') or cl_.startswith('M1')]
+            for clause, msg in pre:
+                b.violation(f'{key}:capture-requires:{clause}', f'call-site precondition of the capture / evaluation kernels violated on {sig} {opts}: {msg}',
+                            'bounded.wave_parts:run_c03', args, function='kyupy.sim.SimOps.__init__')
             for clause, msg in WD.check_values(sim, c, stim, n, opts):
                 b.violation(f'{key}:{clause}', f'{clause} on {sig} {opts}: {msg}', 'bounded.wave_parts:run_c03', args, function='kyupy.wave_sim._wave_eval')
     b.notes.append(f'cases with an overflow indicator set: {overflow}')
@@ -156,7 +162,7 @@ def part_c04(tier, seed):
             stim = WD.make_stim(rng, c, n, max_trans=rng.randrange(1, 4))
             caps = rng.choice([8, 16])
             shift = rng.choice([0.5, 2.0, 8.0, -1.0, 64.0])
-            scale = rng.choice([2.0, 0.5, 4.0, 0.25])
+            scale = rng.choice([2.0, 0.5, 4.0, 0.25, 2.0 ** -20, 2.0 ** -24, 2.0 ** 20, 2.0 ** -16])
             args = replay_args(c, delays, stim, n, opts, caps, shift=shift, scale=scale, mono=mono)
             b.case((G.describe(c)['nodes'], G.describe(c)['lines'], mono), True, sample={'circuit': str(sig), 'polarity_independent': mono, 'shift': shift, 'scale': scale})
             for clause, msg in c04_checks(c, delays, stim, n, opts, caps, shift, scale, mono):
@@ -422,17 +428,30 @@ def c07_checks(c, delays, stim, n, opts, caps, a_ctrl, rng, nperm=3):
             if not np.array_equal(x, y):
                 out.append(('level-permutation', f'{nm} differs after permuting the operations inside the levels (repetition {rep})'))
                 return out
-    # thread orders of the mock GPU: run every level's (sim, op) threads in a shuffled order
+    # thread orders of the mock GPU: WaveSimCuda.c_prop itself is run with a launcher that executes the threads of every
+    # launch in a shuffled order (so a launch that spans more than one level is exposed, too)
     try:
         g = WD.new_sim(c, delays, n, opts, caps, a_ctrl, cuda=True)
         WD.apply_stim(g, stim)
         cu = kyupy.cuda
-        for a, b_ in zip(starts, stops):
-            threads = [(x, y) for x in range(n) for y in range(b_ - a)]
-            rng.shuffle(threads)
-            for x, y in threads:
-                cu.x, cu.y = x, y
-                W.wave_eval_gpu(g.ops, a, b_, g.c, g.c_locs, g.c_caps, g.abuf, int(0), n, g.delays, g.simctl_int, 1)
+        orig = W.wave_eval_gpu
+
+        class Shuffled:
+            def __getitem__(self, item):
+                grid_dim, block_dim = item
+
+                def inner(*args, **kwargs):
+                    threads = [(x, y) for x in range(grid_dim[0] * block_dim[0]) for y in range(grid_dim[1] * block_dim[1])]
+                    rng.shuffle(threads)
+                    for x, y in threads:
+                        cu.x, cu.y = x, y
+                        orig(*args, **kwargs)
+                return inner
+        W.wave_eval_gpu = Shuffled()
+        try:
+            g.c_prop()
+        finally:
+            W.wave_eval_gpu = orig
         g.c_to_s()
         got = (np.asarray(g.c)[keep], np.asarray(g.s)[3:], np.asarray(g.abuf))
         cpu_s = ref[1].copy()
@@ -440,7 +459,7 @@ def c07_checks(c, delays, stim, n, opts, caps, a_ctrl, rng, nperm=3):
             if nm.startswith('port'):
                 x, y = x[[0, 1, 2, 3, 4, 7]], y[[0, 1, 2, 3, 4, 7]]
             if not np.array_equal(x, y):
-                out.append(('thread-order', f'{nm} differs under a shuffled thread order of the GPU kernel'))
+                out.append(('thread-order', f'{nm} differs when the threads of every GPU kernel launch run in a shuffled order'))
                 break
     except Exception as e:  # noqa
         out.append(('exception:gpu-threads', repr(e)))
